@@ -87,6 +87,10 @@ static void chain_ref(Bytes &d, int T, bool enc) { // sequential reference of th
 }
 static Bytes pad(const Bytes &p) { Bytes d = p; int n = 16 - (int)(d.size() % 16); d.insert(d.end(), n, (u8_t)n); return d; }
 
+// private members the harness reads only to enrich the state hash: if a refactoring removes one, the hash does without it (the
+// harness must still compile - "cannot decide" helps nobody)
+template <class B> static auto opt_isfinal(const B &b, int) -> decltype((int)b.isfinal) { return (int)b.isfinal; }
+template <class B> static int opt_isfinal(const B &, long) { return 0; }
 static int g_ofd = -1;
 static int g_futex_seen = 0; // the pipeline used futex-word waits / once routines (std::future & co.) in this execution
 static int STATEFUL = 0;
@@ -186,7 +190,7 @@ static uint64_t obs_hash() {
     mix(g_overlap.size());
     mix(vs_nraces);
     if (getenv("VS_OBSDBG")) {
-      uint64_t hb = 0, ho = 0; for (u32_t i = 0; i < g_bg->size; i++) { const iobuffer &bf = g_bg->buflst[i]; hb = hb * 31 + bf.total * 7 + bf.tail * 3 + bf.now + bf.isfinal * 1000; const u8_t *p = (const u8_t *)bf.b; u32_t n = std::min<u32_t>(S, (bf.total << 4) + bf.tail); for (u32_t k = 0; k < n; k++) hb = hb * 131 + p[k]; }
+      uint64_t hb = 0, ho = 0; for (u32_t i = 0; i < g_bg->size; i++) { const iobuffer &bf = g_bg->buflst[i]; hb = hb * 31 + bf.total * 7 + bf.tail * 3 + bf.now + opt_isfinal(bf, 0) * 1000; const u8_t *p = (const u8_t *)bf.b; u32_t n = std::min<u32_t>(S, (bf.total << 4) + bf.tail); for (u32_t k = 0; k < n; k++) hb = hb * 131 + p[k]; }
       Bytes o = slurp_fd(g_ofd); for (auto b : o) ho = ho * 131 + b;
       fprintf(stderr, "OBS t%d bufs=%lx out=%zu/%lx fin=%ld nch=%d races=%d ovl=%zu logs=", vs_self(), hb, o.size(), ho, g_fin ? ftell(g_fin) : -1, g_nchunks, vs_nraces, g_overlap.size());
       for (int i = 0; i < Tn; i++) fprintf(stderr, "%zu,", g_log[i].size());
@@ -197,7 +201,7 @@ static uint64_t obs_hash() {
   }
   for (u32_t i = 0; i < g_bg->size; i++) {
     mix(g_bg->ctrl[i].state);
-    mix(g_bg->buflst[i].now); mix(g_bg->buflst[i].total); mix(g_bg->buflst[i].tail); mix(g_bg->buflst[i].isfinal);
+    mix(g_bg->buflst[i].now); mix(g_bg->buflst[i].total); mix(g_bg->buflst[i].tail); mix(opt_isfinal(g_bg->buflst[i], 0));
   }
   mix(g_bg->turn); mix(g_bg->over); mix(bufferctrl::live_num);
   return h;
